@@ -141,6 +141,10 @@ class CallMixin:
     def construct(self, cls, args, kwargs, st):
         if cls.is_enum:
             return self.enum_lookup(cls, args[0], st)
+        if any(b == "ext:ABC" or (isinstance(b, ClassInfo) and b.is_subclass_of("ext:ABC")) for b in cls.mro() for b in [b] + list(b.bases)):
+            abstract = sorted({n for c in cls.mro() for n, m in c.methods.items() if "abstractmethod" in m.decorators and "abstractmethod" in cls.find_method(n).decorators})
+            if abstract:
+                return self.raise_ext(st, "TypeError", f"Can't instantiate abstract class {cls.name} with abstract method(s) {', '.join(abstract)}")
         if cls.is_exception:
             ref = st.alloc(cls, {"args": tuple(args)})
             init = cls.find_method("__init__")
